@@ -83,6 +83,9 @@ pub struct Agg {
     pub digests: Vec<(u64, u64)>,
     pub wall_s: f64,
     pub errors: Vec<String>,
+    /// run indexes during which a worker process died
+    #[serde(default)]
+    pub aborted_runs: Vec<u64>,
 }
 
 impl Agg {
@@ -142,6 +145,7 @@ impl Agg {
         self.digests.extend(o.digests);
         self.wall_s = self.wall_s.max(o.wall_s);
         self.errors.extend(o.errors);
+        self.aborted_runs.extend(o.aborted_runs);
     }
 }
 
@@ -173,13 +177,49 @@ pub fn fan_out(world: &str, tier: &str, seed: u64, runs: u64, jobs: usize, extra
         children.push((child, out));
     }
     let mut total = Agg::default();
-    for (mut child, out) in children {
-        let st = child.wait().map_err(|e| e.to_string())?;
+    // (child, out file, end of its range)
+    let mut queue: Vec<(std::process::Child, PathBuf, u64, usize)> = vec![];
+    let mut j = 0u64;
+    for (child, out) in children {
+        let to = ((j + 1) * per).min(runs);
+        queue.push((child, out, to, 0));
+        j += 1;
+    }
+    let mut k = 0;
+    while k < queue.len() {
+        let st = queue[k].0.wait().map_err(|e| e.to_string())?;
+        let out = queue[k].1.clone();
+        let to = queue[k].2;
+        let respawns = queue[k].3;
+        k += 1;
         if !st.success() {
+            // the process died inside a run (stack overflow, abort, OOM kill in the system under test): remember
+            // which run, and let a new worker continue behind it
             let _ = std::fs::remove_file(&out);
             let progress = std::fs::read_to_string(out.with_extension("progress")).unwrap_or_default();
             let _ = std::fs::remove_file(out.with_extension("progress"));
-            return Err(format!("worker exited with {:?} while executing run index {} (reproduce: sim worker {} {} {} <i> <i+1> /tmp/x.json)", st.code(), progress.trim(), world, tier, seed));
+            let idx: u64 = match progress.trim().parse() {
+                Ok(i) => i,
+                Err(_) => return Err(format!("worker exited with {:?} before it started any run", st.code())),
+            };
+            total.aborted_runs.push(idx);
+            if respawns >= 6 {
+                // this range keeps killing its workers: what was recorded is enough, stop exploring it
+                total.count("ranges_abandoned_after_repeated_process_death", 1);
+                continue;
+            }
+            if idx + 1 < to {
+                let out2 = scratch.join(format!("w-{}-{}-r{}-{}.json", stamp, world, idx, respawns));
+                let mut cmd = Command::new(&exe);
+                cmd.arg("worker").arg(world).arg(tier).arg(seed.to_string()).arg((idx + 1).to_string()).arg(to.to_string()).arg(&out2);
+                for e in extra {
+                    cmd.arg(e);
+                }
+                cmd.stdin(Stdio::null()).stdout(Stdio::null()).stderr(Stdio::null());
+                let child = cmd.spawn().map_err(|e| format!("spawn worker: {}", e))?;
+                queue.push((child, out2, to, respawns + 1));
+            }
+            continue;
         }
         let _ = std::fs::remove_file(out.with_extension("progress"));
         let text = std::fs::read_to_string(&out).map_err(|e| format!("worker output {}: {}", out.display(), e))?;
